@@ -348,9 +348,13 @@ impl ActorCell {
                 // unregistry from the PID registry
                 crate::registry::pid_registry::unregister_pid(self.get_id());
             }
-            // If it's enrolled in the registry, remove it
-            if let Some(name) = self.get_name() {
-                crate::registry::unregister(name);
+            // If it's enrolled in the registry, remove it. Remote actors are never enrolled
+            // (see `new_remote`): their name belongs to the peer node's namespace and may
+            // coincide with the name of a live local actor, which must stay registered.
+            if self.get_id().is_local() {
+                if let Some(name) = self.get_name() {
+                    crate::registry::unregister(name);
+                }
             }
             #[cfg(feature = "verif")]
             crate::verif::point(crate::verif::pt::STATUS_AFTER_REGISTRY_CLEANUP, crate::verif::id_u64(&self.get_id()), 0);
